@@ -41,6 +41,7 @@ CLASSES = [
     "dot", "general", "concat", "mh_dot", "mh_general", "mh_concat",
     "single_kept", "mh_mask_last_eq_heads", "no_mask", "neg_dim", "broadcast_query",
     "mh_bias_flags", "saturated", "mh_single_kept", "rank2", "mh_broadcast_query", "long_seq",
+    "mask_wider_than_scores",
 ]
 _CLS_NAMES = {"dot": "DotProductSoftAttention", "general": "GeneralizedDotProductSoftAttention",
               "concat": "ConcatSoftAttention", "mh": "MultiHeadedAttention"}
@@ -152,7 +153,7 @@ def generate(rng, tier, i):
         fl = SINGLE[rng.randrange(3)]
     # ---- shapes
     n = 2 if cls == "rank2" else rng.choice([2, 3, 3, 3, 4, 4, 5])
-    if cls in ("neg_dim", "broadcast_query", "mh_broadcast_query") and n == 2:
+    if cls in ("neg_dim", "broadcast_query", "mh_broadcast_query", "mask_wider_than_scores") and n == 2:
         n = rng.choice([3, 4])
     p = rng.randrange(0, n - 1)
     if cls == "neg_dim" and p == 0:
@@ -194,14 +195,25 @@ def generate(rng, tier, i):
         qry_b[rng.randrange(n - 2)] = 1  # every non-sequence dim is >= 2 in this class
     if cls == "mh_mask_last_eq_heads":
         msk_b = list(full)
+    if cls == "mask_wider_than_scores":
+        # query AND key shared along a batch dimension along which mask and value vary: the mask is then wider than
+        # the scores it is applied to (legal: it only has to broadcast with them)
+        cand = [j for j in range(n - 1) if j != p]
+        j = rng.choice(cand)
+        jj = j if j < p else j - 1  # the query has no sequence dimension
+        if full[j] == 1:
+            full[j] = rng.randint(2, mx)
+        key_b[j], qry_b[jj] = 1, 1
+        val_b[j] = msk_b[j] = full[j]
     # ---- mask
-    no_mask = cls == "no_mask" or (cls not in ("single_kept", "mh_single_kept", "mh_mask_last_eq_heads")
+    no_mask = cls == "no_mask" or (cls not in ("single_kept", "mh_single_kept", "mh_mask_last_eq_heads",
+                                              "mask_wider_than_scores")
                                    and rng.random() < 0.15)
     mask = None
     mask_off = 0
     if not no_mask:
         pk = rng.choice([0.25, 0.5, 0.5, 0.8])
-        if p >= 1 and cls != "mh_mask_last_eq_heads" and rng.random() < 0.35:
+        if p >= 1 and cls not in ("mh_mask_last_eq_heads", "mask_wider_than_scores") and rng.random() < 0.35:
             # a mask of LOWER RANK than the scores (leading batch dims left out altogether): it still
             # broadcasts, e.g. one (Lk, Lq) mask shared by a whole batch of (N, Lk, Lq) scores
             mask_off = rng.randint(1, p)
@@ -613,6 +625,12 @@ def execute(case, mon):
             r = soft.run(_range_check, mon, "range", out, q, k, v, mask, pos, c_rng, dtype)
             if case["class"] == "single_kept" and r is not None:
                 soft.run(_cmp, mon, "single-kept-exact", out, r[0], c_eq, dtype)
+            if case["class"] == "mask_wider_than_scores":
+                # this class is judged on the range clause (and on the call returning at all) only
+                soft.run(mon.check, tuple(out.shape) == tuple(out_batch) + (v.shape[-1],), "shape",
+                         observed=list(out.shape), expected=list(out_batch) + [v.shape[-1]])
+                soft.finish()
+                return
 
         # ---- 2. blindness
         if mask is not None and not bool(me.all()):
